@@ -34,6 +34,7 @@ points.  The last example below is that path.
 -/
 import Restful.Lemmas.Coding
 import Restful.Lemmas.StateShape
+import Restful.Lemmas.TieImpWants
 namespace Restful
 namespace Props
 open Serve Serve.Enc
@@ -324,3 +325,7 @@ end C07Witness
 
 end Props
 end Restful
+
+-- the imperative functions this property's model rests on, tied to their statement-by-statement
+-- translation (tools/goimp, Gen/Imp.lean, regenerated on every run):
+-- also: Restful.TieImp.wants_compressed
